@@ -1383,9 +1383,7 @@ class LangServer:
                     for key in ast_old.global_dict:
                         self.obj_tree.pop(key, None)
                 # Links of the remaining files into the removed file are stale
-                self.link_version = (self.link_version + 1) % 1000
-                for _, file_obj in self.workspace.items():
-                    file_obj.ast.resolve_links(self.obj_tree, self.link_version)
+                self._resolve_workspace_links()
             return
         did_change, err_str = self.update_workspace_file(
             filepath, read_file=True, allow_empty=did_open
@@ -1400,11 +1398,21 @@ class LangServer:
             file_obj = self.workspace.get(filepath)
             file_obj.ast.resolve_includes(self.workspace)
             # Update inheritance/links
-            self.link_version = (self.link_version + 1) % 1000
-            for _, file_obj in self.workspace.items():
-                file_obj.ast.resolve_links(self.obj_tree, self.link_version)
+            self._resolve_workspace_links()
         if not self.disable_diagnostics:
             self.send_diagnostics(uri)
+
+    def _resolve_workspace_links(self):
+        """Resolve the inheritance of every file before the links of any file:
+        a link may look at members a type inherits from a type of another file"""
+        self.link_version = (self.link_version + 1) % 1000
+        for _, file_obj in self.workspace.items():
+            for inherit_obj in file_obj.ast.inherit_objs:
+                inherit_obj.resolve_inherit(
+                    self.obj_tree, inherit_version=self.link_version
+                )
+        for _, file_obj in self.workspace.items():
+            file_obj.ast.resolve_links(self.obj_tree, self.link_version)
 
     def update_workspace_file(
         self,
@@ -1547,9 +1555,7 @@ class LangServer:
         for _, file_obj in self.workspace.items():
             file_obj.ast.resolve_includes(self.workspace)
         # Update inheritance/links
-        self.link_version = (self.link_version + 1) % 1000
-        for _, file_obj in self.workspace.items():
-            file_obj.ast.resolve_links(self.obj_tree, self.link_version)
+        self._resolve_workspace_links()
 
     def serve_exit(self, request: dict) -> None:
         # Exit server
